@@ -88,11 +88,18 @@ impl ScriptStack for Vec<Vec<u8>> {
     fn pop_bool(&mut self) -> Result<bool, InterpreterError> {
         let data = self.pop().ok_or(InterpreterError::EmptyStack)?;
 
-        if data.len() > 4 {
-            return Err(InterpreterError::TooLongForBool);
+        // A byte string of any length is true unless every byte is zero; the sign bit of the last byte is ignored
+        // (negative zero is false)
+        for i in 0..data.len() {
+            if data[i] != 0 {
+                if i == data.len() - 1 && data[i] == 0x80 {
+                    return Ok(false);
+                }
+                return Ok(true);
+            }
         }
 
-        Ok(BigInt::from_signed_bytes_le(&data) >= BigInt::from_slice(num_bigint::Sign::Plus, &[1]))
+        Ok(false)
     }
 
     fn push_bool(&mut self, boolean: bool) -> Result<(), InterpreterError> {
